@@ -146,7 +146,7 @@ def compatReasons (old new : Schema) : List String :=
   (typeOrder old).flatMap (fun T =>
     (if (findCons new T).isNone && (findCons old T).isNone then [] else ["shadow"]) ++
     (match typeCombs old T with
-     | [c] => if (typeCombs new T).length ≤ 1 then [] else [if usedBareSomewhere old c then "union-bare" else "union-boxed"]
+     | [c] => if (typeCombs new T).length ≤ 1 || !usedBareSomewhere old c then [] else ["union-bare"]
      | _ => [])) ++
   (funcCombs old).flatMap (fun f => match findFunc new f.name with
     | some f' => if combCompat f f' then [] else (combReasons f f').map (fun r => "fn-" ++ r)
